@@ -16,10 +16,14 @@ SPEC = {
         "the broadcast-ignore list and the default transmit/receive PGN lists are REGENERATED from src/NMEA2000.cpp on every run "
         "(tools/translators/pgn_tables.py); the library's default product/configuration strings are constants of the engine",
         "the application handler is a parameter (what it accepts, what it hands to SendMsg for the device it was called for); "
-        "HasPendingInformation is represented by the timers themselves (a disabled timer is never due)",
+        "HasPendingInformation is modelled as the flag it is (set by SetPending..., recomputed from both timers by Clear..., guarding "
+        "the device in SendPendingInformation); the PendingIsoAddressClaim / NextDTSendTime terms of the disjunction are false here",
         "harness oracle: independent decoder of the produced frames (identifier fields, reference fast-packet reassembly, "
         "field decoders) against expectations written from the property statement and from what the harness configured; "
-        "frames are observed at the driver AND in the send queue, so an answer counts even while the driver refuses",
+        "frames are observed at the driver AND in the send queue, so an answer counts even while the driver refuses; product / "
+        "configuration information whose send was refused is OWED: the first poll at which the driver refuses nothing, later than "
+        "187+8*src / 187+10*src ms after the last refusal (or claim window) that can have re-armed the timer, must put it on the bus "
+        "(key C08:retry:*), and whatever is still owed at the end of a case is demanded after a flush",
     ],
     'assumptions': [
         "node is open and in a claimant mode for the theorems (other modes: correspondence only); devices have claimed real addresses",
@@ -42,10 +46,13 @@ MANIFEST = {
             "126464 / 126996 (both builders) / 126998 decode to the configured NAME, default++declared lists cut to 74, product "
             "fields cut to 32 and padded, configuration strings cut to the field limit; refused product/configuration sends arm "
             "187+8*src / 187+10*src ms timers (both timer flavours, wrap-around included) and a due timer re-sends on the next "
-            "poll; a refused NAK is not retried. Correspondence: the real node behind the mock driver vs the model on generated "
+            "poll; with BOTH answers pending a poll between the two deadlines keeps the configuration timer and the "
+            "HasPendingInformation flag, so one poll after the later deadline sends it; the flag is exact after every attempt; "
+            "a refused NAK is not retried. Correspondence: the real node behind the mock driver vs the model on generated "
             "requests (special PGNs +-1, ignore list, random and - thorough - all 2^24 PGNs against an independent decoder "
             "oracle plus 2^18 stratified through the model), 1..9 devices, handlers, strings beyond the limits, claim windows, "
-            "driver refusals with retry.",
+            "driver refusals with retry, product AND configuration information refused together (same/different devices, "
+            "broadcast) with polls between and after both retry deadlines.",
     'design_ref': 'DESIGN.md section 4, C08',
     'note': "One defect of the pinned tree is fixed in the worktree (126998 requested with nothing configured was NAKed to "
             "address 255, also for broadcast requests); the model follows the fixed code. Trusted: Lean kernel; hand "
